@@ -376,11 +376,11 @@ end FMapId
 /-! ## Draining another query inside a `Select` (union, merge) -/
 
 /-- the table after the `if !m[code] { m[code] = true }` loop over `xs` -/
-def seenAfter (key : Ref → UInt64) : List Ref → List UInt64 → List UInt64
+def seenAfter (key : Ref → String) : List Ref → List String → List String
   | [], m => m
   | x :: xs, m => if m.contains (key x) then seenAfter key xs m else seenAfter key xs (key x :: m)
 
-theorem dedupByKey_append (key : Ref → UInt64) : ∀ (xs ys : List Ref) (m : List UInt64),
+theorem dedupByKey_append (key : Ref → String) : ∀ (xs ys : List Ref) (m : List String),
     dedupByKey key (xs ++ ys) m = dedupByKey key xs m ++ dedupByKey key ys (seenAfter key xs m)
   | [], ys, m => rfl
   | x :: xs, ys, m => by
@@ -429,7 +429,7 @@ theorem collectM_spec : ∀ (l : List Item) (q : σ), P q → M.Inv q → ∀ c,
       | tail _ hy => exact hall y hy
 
 include L hP hin in
-theorem collectU_spec (key : Ref → UInt64) : ∀ (l : List Item) (q : σ), P q → M.Inv q → ∀ c, Good c →
+theorem collectU_spec (key : Ref → String) : ∀ (l : List Item) (q : σ), P q → M.Inv q → ∀ c, Good c →
     M.rem c q = l →
     ∃ q' c' f0, (∀ fs fl list m, f0 ≤ fs → f0 ≤ fl →
         collectU (M.sel fs) key fl q c list m =
